@@ -11,7 +11,8 @@
      corollaries           schedule_independent, same_as_one_read, pending_only_when_transport_did,
                            consumed_eq_total, never_reads_past_frame, drop_recreate
      poll_header_eq, poll1_frame, poll1_short   characterisation of poll1 on (prefixes of) a frame *)
-From MQ Require Import Proofs.Tactics Base.VarInt Model.Poll.
+From MQ Require Import Proofs.Tactics Base.VarInt Model.Poll Model.Frontends.
+From MQ Require Proofs.VarIntLaws.
 Open Scope N_scope.
 
 (* ---------- lists of bytes ---------- *)
@@ -39,7 +40,7 @@ Lemma atake_spec : forall (l : list atom) (cap : N) (bs : bytes) (r : list atom)
   count_pend r = count_pend l.
 Proof.
   induction l as [|a l IH]; intros cap bs r Ht.
-  - cbn [atake] in Ht. inversion Ht; subst. rewrite len_nil. cbn. repeat split; lia.
+  - cbn [atake] in Ht. inversion Ht; subst. rewrite len_nil. cbn [bytes_of app length count_pend]. repeat split; lia.
   - destruct a as [b| |]; cbn [atake] in Ht.
     + destruct (N.eqb_spec cap 0) as [Hc|Hc].
       * inversion Ht; subst. rewrite len_nil. cbn [app]. repeat split; lia.
@@ -65,7 +66,7 @@ Lemma astrip_spec (l : list atom) :
   bytes_of (astrip l) = bytes_of l /\ (length (astrip l) <= length l)%nat /\
   count_pend (astrip l) = count_pend l.
 Proof.
-  induction l as [|a l IH]; [cbn; repeat split; lia|].
+  induction l as [|a l IH]; [cbn [astrip bytes_of length count_pend]; repeat split; lia|].
   destruct a as [b| |]; cbn [astrip bytes_of length count_pend]; try (repeat split; lia).
   destruct IH as (H1 & H2 & H3). repeat split; [exact H1|lia|exact H3].
 Qed.
@@ -929,7 +930,7 @@ Proof.
   2:{ destruct Hh as [Hh _]. rewrite Hs in Hh. discriminate. }
   destruct (dvi_loop_ok_inv _ _ _ _ _ _ _ _ Ed) as (c & Hd & Hk & Hne & Hall).
   assert (Hc : 1 <= len c). { destruct c as [|b c]; [congruence|]. rewrite len_cons. lia. }
-  assert (Hk' : k = len c) by lia. subst k.
+  rewrite N.add_0_l in Hk. subst k.
   rewrite Hs in Hh. exists cb, c, v.
   destruct (header_done cb (len c - 1) v) as [res0|s1] eqn:Eh.
   - inversion Hh as [[Hres Hrest]]. subst res0. subst r.
@@ -1080,3 +1081,74 @@ Proof.
 Qed.
 
 End PollSched.
+
+(* ---------- the two PollHeader implementations store the remaining length ---------- *)
+Lemma V3_new_with_rl : new_with_rl V3.header_new_with.
+Proof.
+  intros cb rl h. unfold V3.header_new_with, V3.mk_header.
+  destruct (cb / 16) as [|q]; [discriminate|].
+  do 4 (try (destruct q as [q|q|]; try discriminate));
+    repeat match goal with
+           | |- context [if ?c then _ else _] => destruct c
+           | |- context [match qos_of_u8 ?x with _ => _ end] => destruct (qos_of_u8 x)
+           end;
+    intros H; try discriminate; inversion H; reflexivity.
+Qed.
+
+Lemma V5_new_with_rl : new_with_rl V5.header_new_with.
+Proof.
+  intros cb rl h. unfold V5.header_new_with, V3.mk_header.
+  destruct (cb / 16) as [|q]; [discriminate|].
+  do 4 (try (destruct q as [q|q|]; try discriminate));
+    repeat match goal with
+           | |- context [if ?c then _ else _] => destruct c
+           | |- context [match qos_of_u8 ?x with _ => _ end] => destruct (qos_of_u8 x)
+           end;
+    intros H; try discriminate; inversion H; reflexivity.
+Qed.
+
+(* the front-ends of Model/Frontends.v are instances: e.g. for the v5 poll decoder *)
+Example F5_same_as_one_read (prof : profile) (l : list atom) (t : tail) :
+  rr_res _ (F5.poll_drive prof l t) = rr_res _ (F5.poll1 prof (bytes_of l) t).
+Proof. exact (proj1 (same_as_one_read _ _ _ _ prof l t)). Qed.
+Example F3_same_as_one_read (prof : profile) (l : list atom) (t : tail) :
+  rr_res _ (F3.poll_drive prof l t) = rr_res _ (F3.poll1 prof (bytes_of l) t).
+Proof. exact (proj1 (same_as_one_read _ _ _ _ prof l t)). Qed.
+
+(* sanity: PINGREQ [192; 0] delivered as Pend, byte, Cut, Pend, Pend, byte and then a stray byte:
+   accepted with total 2, three Pendings, the stray byte left; reads of capacity 1 only *)
+Eval vm_compute in
+  (let r := F3.poll_drive Debug [APend; AB 192; ACut; APend; APend; AB 0; AB 7] TEof in
+   (rr_res _ r, rr_rest _ r, rr_pend _ r, rr_trace _ r)).
+
+(* what write_var_int emits is a variable byte integer in the sense of vbi_of *)
+Lemma vbi_of_write (n : N) : n < 268435456 -> vbi_of (write_var_int n) n.
+Proof.
+  intros Hn t x. rewrite (VarIntLaws.read_write n t x Hn).
+  destruct (VarIntLaws.write_len n Hn) as [-> _]. reflexivity.
+Qed.
+
+Print Assumptions run_is_sem.
+Print Assumptions run_bigrun.
+Print Assumptions poll_drive_is_sem.
+Print Assumptions poll_drive_fuel.
+Print Assumptions poll_read_nonempty.
+Print Assumptions poll_panic_origin.
+Print Assumptions poll_assert_never_fires.
+Print Assumptions schedule_independent.
+Print Assumptions profile_independent.
+Print Assumptions same_as_one_read.
+Print Assumptions pending_only_when_transport_did.
+Print Assumptions consumed_eq_total.
+Print Assumptions never_reads_past_frame.
+Print Assumptions drop_recreate.
+Print Assumptions drop_recreate_drive.
+Print Assumptions prun_split.
+Print Assumptions poll_header_eq.
+Print Assumptions poll1_frame.
+Print Assumptions poll1_short.
+Print Assumptions poll1_short_header.
+Print Assumptions poll1_bad_varint.
+Print Assumptions V3_new_with_rl.
+Print Assumptions V5_new_with_rl.
+Print Assumptions vbi_of_write.
